@@ -7,7 +7,8 @@
 //	        width, maps nested through the key or the value, indefinite forms, cbor tags), on
 //	        every path: interface{}, codec.Raw, unknown struct field (skip), Raw / interface{} struct
 //	        field, the recursive type T{A []T; M map[string]T; P *T}, [][]...[]int, map[string]interface{},
-//	        []interface{}, extension values (cbor tag bound to an InterfaceExt, SelfExt payloads)
+//	        []interface{}, a recursive type whose hand-written Selfer re-enters the Decoder (d.MustDecode /
+//	        d.Decode of its children), extension values (cbor tag bound to an InterfaceExt, SelfExt payloads)
 //	mix     the same with random mixtures of units
 //	deep    the same far beyond MaxDepth (10^5 .. 3*10^6 levels) in subprocesses whose stack is
 //	        capped at 64 MB (debug.SetMaxStack) under a watchdog
